@@ -62,7 +62,7 @@ def main():
         # the demo may mention the agent's own worktree path; point it at ours
         demo_text = demo.read_text()
         demo_local = tmp / "demo.py"
-        demo_local.write_text(re.sub(r"/tmp/seed2?/[A-Z0-9]+/wt", str(wt), demo_text))
+        demo_local.write_text(re.sub(r"/tmp/seed[23]?/[A-Z0-9]+/wt", str(wt), demo_text))
         rc0, out0, _ = sh(f"/venv/bin/python {demo_local}", cwd=wt, env=env, timeout=600)
         result["demo_pristine_rc"] = rc0
         rc, out, _ = sh(f"git apply {patch}", cwd=wt)
